@@ -896,9 +896,9 @@ class Interp(StmtMixin, ObjMixin):
 
     def contains(self, container, item):
         if isinstance(container, Obj):
-            m, _ = container.cls.lookup('__contains__')
+            m = self.special(container, '__contains__')
             if m is not None:
-                return self.symbolic_truth(self.call(BoundMethod(container, m), [item], {}))
+                return self.symbolic_truth(self.call(m, [item], {}))
             m, _ = container.cls.lookup('__iter__')
             if m is not None:
                 return self.contains(self.iterate(container), item)
